@@ -77,6 +77,13 @@ pub fn apply_dim() -> String {
             tracing_subscriber::registry().with(EvalLayer).init();
         }
         "stats" => rs1090::decode::serialize_config(true),
+        "debugassert" => {
+            // a build dimension rather than a run-time one: this binary must have been compiled with debug assertions
+            if !cfg!(debug_assertions) {
+                eprintln!("VERIF_DIM=debugassert needs an engine built with debug assertions on");
+                std::process::exit(2);
+            }
+        }
         other => {
             eprintln!("unknown VERIF_DIM {other}");
             std::process::exit(2);
